@@ -225,6 +225,13 @@ def build_interface(idef, tagp, log):
                 return ("idefault", tagp, _n, x)
             g.__name__ = name
             ns[name] = dataset(g)
+        elif k == "default_ds_cb":
+            # a member that is a dataset with a callback: the callback applies to every implementation of the member
+            def g2(x=Option("X", 0), _n=name):
+                log.append(("body", f"{tagp}.{_n}"))
+                return ("idefault", tagp, _n, x)
+            g2.__name__ = name
+            ns[name] = dataset(callback=(lambda _n: (lambda v: ("cb", _n, v)))(name))(g2)
         elif k == "default_fn":
             def h(_n=name):
                 return ("idefault", tagp, _n, "fn")
@@ -250,6 +257,9 @@ def expected_default(idef, tagp, name, o):
     if k == "default_ds":
         x = U.dotted_get(o, "X")
         return ("idefault", tagp, name, 0 if x is U.ABSENT else x)
+    if k == "default_ds_cb":
+        x = U.dotted_get(o, "X")
+        return ("cb", name, ("idefault", tagp, name, 0 if x is U.ABSENT else x))
     if k == "default_fn":
         return ("idefault", tagp, name, "fn")
     if k == "default_eval":
@@ -331,8 +341,11 @@ def check_interfaces(case, ctx):
         n_valid += 1
         for nm in names_given:
             for j in member_names[nm]:
+                kind_j = [m["kind"] for m in idefs[j]["members"] if m["name"] == nm][0]
                 for a in aliases:
-                    table[(j, nm)][a] = expected_vals[nm]
+                    table[(j, nm)][a] = ("cb", nm, expected_vals[nm]) if kind_j == "default_ds_cb" else expected_vals[nm]
+                    if kind_j == "default_ds_cb":
+                        labels.add("callback-member-overridden")
     # evaluations
     aliases_seen = set()
     for o in case["options"]:
@@ -367,7 +380,7 @@ def interface_cases(draw):
     for j in range(n_if):
         names = draw(st.lists(st.sampled_from(MEMBERS), min_size=1, max_size=4, unique=True))
         idefs.append({"dispatch": draw(st.sampled_from(["K", "R.K", "K", "R.K", ["K", "R.K"]])),
-                      "members": [{"name": nm, "kind": draw(st.sampled_from(["ann", "abstract", "default_ds", "default_fn", "default_eval", "const"]))} for nm in names]})
+                      "members": [{"name": nm, "kind": draw(st.sampled_from(["ann", "abstract", "default_ds", "default_ds_cb", "default_fn", "default_eval", "const"]))} for nm in names]})
     impls = []
     for t in range(draw(st.integers(1, 4))):
         targets = draw(st.lists(st.integers(0, n_if - 1), min_size=1, max_size=2))
